@@ -409,6 +409,35 @@ pub fn lexeme_variants() -> Space {
         ("nested-generic-close", "package p; parcelable P { Map<String, List<List<String>>> m; }".into()),
         ("string-ending-in-backslash-twice", "package p; parcelable P { String a = \"C:\\\"; String b = \"D:\\\"; }".into()),
         ("minus-alone", "package p; parcelable P { float a = -; }".into()),
+        // identifiers spelled like the terminal names of the grammar
+        ("kindname-PACKAGE", "PACKAGE a; interface I { }".into()),
+        ("kindname-IMPORT", "package a; IMPORT b.C; interface I { }".into()),
+        ("kindname-INTERFACE", "package a; INTERFACE I { }".into()),
+        ("kindname-PARCELABLE", "package a; PARCELABLE I { }".into()),
+        ("kindname-ENUM", "package a; ENUM E { A }".into()),
+        ("kindname-as-names", "package PACKAGE.IMPORT; import INTERFACE.ENUM; interface IDENT { const int INTEGER = 1; FLOAT ONEWAY(in STRING DIRECTION) = 3; }".into()),
+        ("kindname-values", "package p; enum E { INTEGER = INTEGER, BOOLEAN = QUOTED_STRING, RESERVED_KEYWORD }".into()),
+        ("kindname-INTEGER-code", "package p; interface I { void f() = INTEGER; }".into()),
+        ("kindname-VOID-return", "package p; interface I { VOID f(); LIST<MAP> g(); CONST int K = 1; }".into()),
+        ("kindname-annotation", "package p; @ANNOTATION(IDENT=IDENT) interface I { }".into()),
+        // brace values: separators
+        ("brace-juxtaposed", "package p; parcelable P { int[] a = {1 2}; }".into()),
+        ("brace-juxtaposed-after-comma", "package p; parcelable P { int[] a = {1, 2 3}; }".into()),
+        ("brace-juxtaposed-nested", "package p; parcelable P { int[] a = { {1} {2} }; }".into()),
+        ("brace-double-comma", "package p; parcelable P { int[] a = {1,,2}; }".into()),
+        ("brace-only-comma", "package p; parcelable P { int[] a = {,}; }".into()),
+        ("brace-leading-comma", "package p; parcelable P { int[] a = {,1}; }".into()),
+        ("brace-trailing-comma", "package p; parcelable P { int[] a = {1,2,}; }".into()),
+        ("brace-map-juxtaposed", "package p; parcelable P { int[] a = {\"a\" = 1 \"b\" = 2}; }".into()),
+        ("brace-map-ok", "package p; parcelable P { int[] a = {\"a\" = 1, \"b\" = 2}; }".into()),
+        ("brace-map-mixed", "package p; parcelable P { int[] a = {\"a\" = 1, 2}; }".into()),
+        ("brace-juxtaposed-in-annotation", "package p; @A(x={1 2}) parcelable P { }".into()),
+        ("brace-juxtaposed-in-enum", "package p; enum E { A = {1 2} }".into()),
+        // many validation warnings, then a (recovered) syntax error
+        ("many-warnings-then-syntax-error", format!("package p;\n{}interface I {{ void ok(); void f(in); }}", (0..40).map(|k| format!("import q.U{k};\n")).collect::<String>())),
+        ("many-warnings-then-fatal-syntax-error", format!("package p;\n{}interface I {{ void ok(); ", (0..40).map(|k| format!("import q.U{k};\n")).collect::<String>())),
+        ("many-recovered-errors", format!("package p; interface I {{ {} }}", "void f(in); ".repeat(40))),
+        ("many-members", format!("package p; interface I {{ {} }}", (0..120).map(|k| format!("void f{k}(in int a{k}) = {k};")).collect::<String>())),
     ];
     let n = texts.len();
     Space {
